@@ -289,8 +289,8 @@ type c05Op struct {
 
 func (o c05Op) Token() string {
 	switch o.Kind {
-	case "o":
-		return fmt.Sprintf("o %d %s %d", o.Fd, hx(o.A), o.Mode)
+	case "o", "e":
+		return fmt.Sprintf("%s %d %s %d", o.Kind, o.Fd, hx(o.A), o.Mode)
 	case "w":
 		return fmt.Sprintf("w %d %s", o.Fd, hx(o.Data))
 	case "c":
@@ -308,6 +308,8 @@ func (o c05Op) Token() string {
 func (o c05Op) String() string {
 	s := ""
 	switch o.Kind {
+	case "e":
+		s = fmt.Sprintf("open(%s, O_WRONLY|O_CREAT|O_EXCL, %#o)=fd%d", o.A, o.Mode, o.Fd)
 	case "o":
 		s = fmt.Sprintf("open(%s, O_WRONLY|O_CREAT|O_TRUNC, %#o)=fd%d", o.A, o.Mode, o.Fd)
 	case "w":
@@ -507,7 +509,12 @@ func projectTrace(tr *straceTrace, root string) []c05Op {
 				// change where the bytes go or whether the old file survives do.
 				plain := wr && fl["O_CREAT"] && fl["O_TRUNC"] &&
 					!fl["O_APPEND"] && !fl["O_EXCL"] && !fl["O_TMPFILE"] && !fl["O_PATH"] && !fl["O_DIRECTORY"]
-				if plain {
+				// the repaired save creates its temporary file exclusively
+				excl := wr && fl["O_CREAT"] && fl["O_EXCL"] && !fl["O_TRUNC"] &&
+					!fl["O_APPEND"] && !fl["O_TMPFILE"] && !fl["O_PATH"] && !fl["O_DIRECTORY"]
+				if excl {
+					add(c05Op{Kind: "e", Fd: fd.Canon, A: rel(p), Mode: parseOctal(mode)})
+				} else if plain {
 					add(c05Op{Kind: "o", Fd: fd.Canon, A: rel(p), Mode: parseOctal(mode)})
 				} else {
 					// an open for writing of another shape: not the model's Creat, but the
@@ -646,23 +653,25 @@ type c05File struct {
 }
 
 type c05Scenario struct {
-	Name    string
-	Variant int
-	Seed    uint64
-	Args    []string
-	Base    string // directory with the pristine tree
-	Old     map[string]c05File
-	OldSnap map[string]Entry
-	Final   map[string]c05File                                           // the tree after a complete, undisturbed run (no strace)
-	Twin    string                                                       // stale-tmp: the same tree without the stale file; its complete run defines "new"
-	Expect  func(s *c05Scenario, prog []c05Action, stdout string) string // coverage floor; "" = fine
+	Name      string
+	Variant   int
+	Seed      uint64
+	Args      []string
+	Base      string // directory with the pristine tree
+	Old       map[string]c05File
+	OldSnap   map[string]Entry
+	Final     map[string]c05File                                           // the tree after a complete, undisturbed run (no strace)
+	ExpectErr string                                                       // must appear on stderr of the complete run
+	Twin      string                                                       // stale-tmp: the same tree without the stale file; its complete run defines "new"
+	Expect    func(s *c05Scenario, prog []c05Action, stdout string) string // coverage floor; "" = fine
 }
 
 type c05Action struct {
-	Kind string // S save, M chmod, T save if the latest save succeeded, E save if it failed
-	Path string
-	Data string
-	Mode int
+	Kind   string // S save, M chmod, T save if the latest save succeeded, E save if it failed
+	NoData bool   // a save refused at the exclusive open: its content is unknown (and irrelevant)
+	Path   string
+	Data   string
+	Mode   int
 }
 
 var c05Scenarios = []string{"single-mk", "pkg4", "plist-sort", "chmod", "stale-tmp"}
@@ -782,6 +791,13 @@ func c05Build(name string, variant int, seed uint64, root string) *c05Scenario {
 		NewBaseTree(s.Twin).Write("cat/pkg/PLIST", pl)
 		// longer than the new PLIST: a save that does not truncate shows as well
 		t.Write("cat/pkg/PLIST.pkglint.tmp", strings.Repeat("precious "+fmt.Sprint(r.Intn(1000))+"\n", 60))
+		s.ExpectErr = "ERROR: cat/pkg/PLIST.pkglint.tmp: Cannot write: "
+		s.Expect = func(s *c05Scenario, prog []c05Action, out string) string {
+			if len(prog) == 0 || !prog[0].NoData {
+				return "the save of PLIST was not refused"
+			}
+			return ""
+		}
 	}
 	s.Old = c05ReadTree(root)
 	s.OldSnap = Snapshot(root)
@@ -935,6 +951,11 @@ func c05ProgTokens(prog []c05Action) string {
 	return strings.Join(ss, " ")
 }
 
+func c05IsOpen(o c05Op) bool { return o.Kind == "o" || o.Kind == "e" || o.Kind == "x" && o.OpenLike }
+
+// a chmod of a *.pkglint.tmp file is a step of a save; any other chmod is the mode fix
+func c05IsModeFix(o c05Op) bool { return o.Kind == "m" && !strings.HasSuffix(o.A, ".pkglint.tmp") }
+
 // c05MergeWrites joins consecutive successful writes through the same descriptor
 // (and a final failing one) into a single write of the concatenated bytes.
 func c05MergeWrites(ops []c05Op) []c05Op {
@@ -993,12 +1014,20 @@ func c05ProgOf(ops []c05Op, old map[string]c05File) []c05Action {
 	var prog []c05Action
 	open := map[int]int{} // canonical fd -> index into prog
 	for _, o := range ops {
+		if c05IsOpen(o) && o.Res == "EEXIST" {
+			// the temporary name is taken: the save is refused; its content never shows
+			prog = append(prog, c05Action{Kind: "S", Path: strings.TrimSuffix(o.A, ".pkglint.tmp"), NoData: true})
+			continue
+		}
 		if o.Res != "ok" {
 			continue
 		}
 		kind := o.Kind
-		if kind == "x" && o.OpenLike {
+		if c05IsOpen(o) {
 			kind = "o"
+		}
+		if kind == "m" && !c05IsModeFix(o) {
+			continue // the save carries the mode of the original over to its temporary file
 		}
 		switch kind {
 		case "o":
@@ -1037,7 +1066,7 @@ func c05CleanSaves(ops []c05Op, from int) []c05Action {
 	done := map[string]*st{} // tmp path -> written and closed
 	for _, o := range ops[from:] {
 		kind := o.Kind
-		if kind == "x" && o.OpenLike {
+		if c05IsOpen(o) {
 			kind = "o"
 		}
 		switch kind {
@@ -1100,7 +1129,13 @@ func c05SpecBad(ctx *Ctx, s *c05Scenario, umask int, prog []c05Action, cur map[s
 	// (known without any trace); the saves seen in the trace add the
 	// intermediate contents of files that are saved more than once
 	old := s.Old
-	prog = append([]c05Action{}, prog...)
+	var known []c05Action
+	for _, a := range prog {
+		if !a.NoData {
+			known = append(known, a)
+		}
+	}
+	prog = known
 	for _, p := range sortedKeys(s.Final) {
 		if o, ok := s.Old[p]; ok && o.Data != s.Final[p].Data {
 			prog = append(prog, c05Action{Kind: "S", Path: p, Data: s.Final[p].Data})
@@ -1191,7 +1226,7 @@ func (st *c05State) baseline(s *c05Scenario) (*c05Run, []c05Action, bool) {
 	for _, a := range prog {
 		res.Count("action_"+a.Kind, 1)
 	}
-	if len(run.Ops) == 0 && s.Name != "stale-tmp" {
+	if len(run.Ops) == 0 {
 		// the scenario produced no mutating system call at all: nothing can be checked
 		why := "no mutating system call inside the tree"
 		if s.Expect != nil {
@@ -1199,6 +1234,11 @@ func (st *c05State) baseline(s *c05Scenario) (*c05Run, []c05Action, bool) {
 		}
 		res.Broken = fmt.Sprintf("scenario %s (%s): %s", s.Name, strings.Join(s.Args, " "), why)
 		return nil, nil, false
+	}
+	if s.ExpectErr != "" && !strings.Contains(plain.Stderr, s.ExpectErr) {
+		rep := st.replayMap(s, "plain", -1, "")
+		res.AddViolation(Violation{Key: "C05/complete-run/no-error-line", FoundInput: true, Size: 1, Replay: rep,
+			What: fmt.Sprintf("scenario %s: `pkglint %s` does not report %q on stderr (%q)", s.Name, strings.Join(s.Args, " "), s.ExpectErr, c05Short(plain.Stderr))})
 	}
 	if s.Expect != nil {
 		if why := s.Expect(s, prog, run.Stdout); why != "" {
@@ -1220,14 +1260,8 @@ func (st *c05State) baseline(s *c05Scenario) (*c05Run, []c05Action, bool) {
 		rep := st.replayMap(s, "plain", -1, "")
 		rep["file"] = bad
 		key := "C05/complete-run/" + s.Name
-		if s.Name == "stale-tmp" && strings.HasSuffix(bad, ".pkglint.tmp") {
-			key = "C05/preexisting-tmp-name"
-		}
 		res.AddViolation(Violation{Key: key, FoundInput: true, Size: 1, Replay: rep,
 			What: fmt.Sprintf("scenario %s: after a complete, undisturbed `pkglint %s` the file %s %s", s.Name, strings.Join(s.Args, " "), bad, what)})
-		if s.Name == "stale-tmp" {
-			res.Count("stale_tmp_reproduced", 1)
-		}
 	}
 	// the program is cross-checked against what can be seen without the trace:
 	// changed files = saved or chmodded files, last saved content = final content,
@@ -1235,6 +1269,9 @@ func (st *c05State) baseline(s *c05Scenario) (*c05Run, []c05Action, bool) {
 	last := map[string]string{}
 	touched := map[string]bool{}
 	for _, a := range prog {
+		if a.NoData {
+			continue
+		}
 		touched[a.Path] = true
 		if a.Kind != "M" {
 			last[a.Path] = a.Data
@@ -1260,11 +1297,15 @@ func (st *c05State) baseline(s *c05Scenario) (*c05Run, []c05Action, bool) {
 	sort.Strings(indep)
 	init := c05InitTokens(s.Old, st.umask)
 	progT := c05ProgTokens(prog)
-	model, err := c05Oracle1(ctx, "ops / "+progT)
+	// the model's run from the same tree without any fault: system calls with their
+	// results (the only error it can meet is EEXIST at the exclusive open)
+	nofault, err := c05Oracle1(ctx, "fault / "+init+" / "+progT+" / -1 0 EIO")
 	if err != nil {
 		st.broken(err.Error())
 		return nil, nil, false
 	}
+	nfParts := strings.Split(nofault+" ", " / ")
+	model := strings.TrimSpace(nfParts[0])
 	st.evals(1, 1)
 	obs := c05OpTokens(run.Ops)
 	shape := ""
@@ -1274,7 +1315,16 @@ func (st *c05State) baseline(s *c05Scenario) (*c05Run, []c05Action, bool) {
 		}
 	}
 	// several write() calls through one descriptor are the model's one Write
-	corrOK := model == c05OpTokens(c05MergeWrites(run.Ops)) && len(indep) == 0
+	var obsRes []string
+	for _, o := range c05MergeWrites(run.Ops) {
+		obsRes = append(obsRes, o.Token()+" ="+o.Res)
+	}
+	if len(nfParts) == 3 {
+		if n, m := strings.Count(run.Stderr, "ERROR: "), len(strings.Fields(nfParts[1]))/2; n != m {
+			indep = append(indep, fmt.Sprintf("%d ERROR lines, the model has %d", n, m))
+		}
+	}
+	corrOK := model == strings.Join(obsRes, " ") && len(indep) == 0
 	run.CorrOK = corrOK
 	if !corrOK {
 		what := "observed: " + c05OpsString(run.Ops)
@@ -1317,7 +1367,7 @@ func (st *c05State) baseline(s *c05Scenario) (*c05Run, []c05Action, bool) {
 			modelable = false
 		}
 	}
-	if modelable && s.Name != "stale-tmp" {
+	if modelable {
 		specProg := append([]c05Action{}, prog...)
 		for _, p := range sortedKeys(s.Final) {
 			if o, ok := s.Old[p]; ok && o.Data != s.Final[p].Data {
@@ -1351,7 +1401,7 @@ func (st *c05State) baseline(s *c05Scenario) (*c05Run, []c05Action, bool) {
 
 func c05OpKindName(o c05Op) string {
 	switch o.Kind {
-	case "o":
+	case "o", "e":
 		return "open"
 	case "w":
 		return "write"
@@ -1420,9 +1470,6 @@ func (st *c05State) kill(s *c05Scenario, base *c05Run, prog []c05Action, k int) 
 		rep["file"] = bad
 		rep["done"] = c05OpsString(done)
 		key := fmt.Sprintf("C05/kill-before-%s/%s", c05OpKindName(hitOp), kind)
-		if s.Name == "stale-tmp" && strings.HasSuffix(bad, ".pkglint.tmp") {
-			key = "C05/preexisting-tmp-name"
-		}
 		res.AddViolation(Violation{Key: key, FoundInput: true, Size: 10*len(done) + len(s.Args),
 			What: fmt.Sprintf("scenario %s, pkglint %s killed before its mutating system call #%d (%s), after [%s]: %s: %s",
 				s.Name, strings.Join(s.Args, " "), hit, hitOp, c05OpsString(done), bad, what), Replay: rep})
@@ -1591,7 +1638,7 @@ func (st *c05State) fault(s *c05Scenario, base *c05Run, prog []c05Action, k int,
 		}
 	}
 	progF := append(append([]c05Action{}, prog...), later...)
-	if act := c05ActionOf(prog, hit); act >= 0 {
+	if act := c05ActionOf(base.Ops, hit); act >= 0 && act < len(prog) {
 		expected := 0
 		for _, a := range prog[act+1:] {
 			if a.Kind != "M" && a.Path == failed {
@@ -1630,7 +1677,7 @@ func (st *c05State) fault(s *c05Scenario, base *c05Run, prog []c05Action, k int,
 	// that save (the old content, or the content of an earlier save of this run),
 	// unless a later save of this run replaced it
 	// (decidable from the trace only when the run follows the model's protocol)
-	if hitOp.Kind != "m" && base.CorrOK {
+	if !c05IsModeFix(hitOp) && base.CorrOK {
 		want := s.Old[failed].Data
 		for _, a := range c05CleanSaves(base.Ops[:hit], 0) {
 			if a.Path == failed {
@@ -1654,9 +1701,12 @@ func (st *c05State) fault(s *c05Scenario, base *c05Run, prog []c05Action, k int,
 	if !base.CorrOK {
 		return true // the protocol itself differs from the model's: already reported
 	}
+	if hitOp.Res != "ok" {
+		return true // this call fails anyway (EEXIST): the local model of a free name does not apply
+	}
 	var diffs []string
 	start := hit
-	for start > 0 && hitOp.Kind != "m" && base.Ops[start].Kind != "o" {
+	for start > 0 && !c05IsModeFix(hitOp) && !c05IsOpen(base.Ops[start]) {
 		start--
 	}
 	// several write() calls are the model's one Write: a failure of a later one is a
@@ -1670,15 +1720,24 @@ func (st *c05State) fault(s *c05Scenario, base *c05Run, prog []c05Action, k int,
 	fOld := c05File{Data: "old", Mode: 0o644}
 	var req string
 	wdata := ""
-	if hitOp.Kind == "m" {
+	if c05IsModeFix(hitOp) {
 		req = fmt.Sprintf("fault / F %s %s %d U %d / M %s %d / 0 0 %s", hx(failed), hx(fOld.Data), s.Old[failed].Mode, st.umask, hx(failed), s.Old[failed].Mode, errno)
 	} else {
 		data := ""
 		for _, o := range base.Ops[start:] {
 			if o.Kind == "w" {
 				data += o.Data
-			} else if o.Kind != "o" {
+			} else if !c05IsOpen(o) {
 				break
+			}
+		}
+		// the mode the save carries over = the mode of the original at that moment
+		for _, o := range base.Ops[start+1:] {
+			if c05IsOpen(o) || o.Kind == "r" {
+				break
+			}
+			if o.Kind == "m" {
+				fOld.Mode = o.Mode
 			}
 		}
 		wdata = data
@@ -1706,8 +1765,11 @@ func (st *c05State) fault(s *c05Scenario, base *c05Run, prog []c05Action, k int,
 	}
 	if minj-local >= 0 {
 		for i := minj - local; i < len(mrun); i++ {
-			if i > minj && (mrun[i].Kind == "o" || hitOp.Kind == "m") {
+			if i > minj && (c05IsOpen(mrun[i]) || c05IsModeFix(hitOp)) {
 				break
+			}
+			if o := mrun[i]; i > minj && !c05IsModeFix(hitOp) && (o.Kind == "m" || o.Kind == "u" || o.Kind == "r") && o.A != base.Ops[start].A {
+				break // a call of another save that merely touches the same path
 			}
 			o := mrun[i]
 			if o.Kind == "w" && o.Res != "ok" && strings.HasPrefix(wdata, o.Data) {
@@ -1720,7 +1782,9 @@ func (st *c05State) fault(s *c05Scenario, base *c05Run, prog []c05Action, k int,
 		diffs = append(diffs, "the system calls of the failed action differ from the model's: "+c05OpsString(run.Ops))
 	}
 	ef := strings.Fields(parts[1])
-	if nerr := strings.Count(run.Stderr, "ERROR: "); len(ef)/2 != nerr {
+	// (when the undisturbed run already reports errors -- refused saves -- their number
+	// after the fault depends on code outside the anchors)
+	if nerr := strings.Count(run.Stderr, "ERROR: "); len(ef)/2 != nerr && !strings.Contains(base.Stderr, "ERROR: ") {
 		diffs = append(diffs, fmt.Sprintf("%d ERROR lines, model %d", nerr, len(ef)/2))
 	}
 	for i := 0; i+1 < len(ef); i += 2 {
@@ -1730,7 +1794,7 @@ func (st *c05State) fault(s *c05Scenario, base *c05Run, prog []c05Action, k int,
 	}
 	if fin, ok := c05ParseListing(strings.TrimSpace(parts[2])); !ok {
 		diffs = append(diffs, "bad listing")
-	} else if hitOp.Kind != "m" && len(later) == 0 {
+	} else if !c05IsModeFix(hitOp) && len(later) == 0 {
 		// what the failed save leaves behind under its temporary name
 		mt, mok := fin[failed+".pkglint.tmp"]
 		rt, rok := run.After[failed+".pkglint.tmp"]
@@ -1751,19 +1815,16 @@ func (st *c05State) fault(s *c05Scenario, base *c05Run, prog []c05Action, k int,
 	return true
 }
 
-// c05ActionOf: the index of the action of prog that issues operation number `op`
-// of the unperturbed run (a performed save = 4 operations, a chmod = 1).
-func c05ActionOf(prog []c05Action, op int) int {
-	n := 0
-	for i, a := range prog {
-		switch a.Kind {
-		case "S", "T":
-			n += 4
-		case "M":
-			n++
+// c05ActionOf: the index of the action (save or mode fix, in the order of c05ProgOf)
+// that issues operation number `op` of the unperturbed run.
+func c05ActionOf(ops []c05Op, op int) int {
+	act := -1
+	for i, o := range ops {
+		if c05IsOpen(o) || c05IsModeFix(o) {
+			act++
 		}
-		if op < n {
-			return i
+		if i == op {
+			return act
 		}
 	}
 	return -1
@@ -1773,7 +1834,7 @@ func c05ActionOf(prog []c05Action, op int) int {
 func c05FailedPath(ops []c05Op, i int) string {
 	o := ops[i]
 	switch o.Kind {
-	case "o", "m", "u":
+	case "o", "e", "m", "u":
 		return strings.TrimSuffix(o.A, ".pkglint.tmp")
 	case "r":
 		return o.B
@@ -1784,7 +1845,7 @@ func c05FailedPath(ops []c05Op, i int) string {
 		return ""
 	}
 	for j := i - 1; j >= 0; j-- {
-		if (ops[j].Kind == "o" || ops[j].OpenLike) && ops[j].Fd == o.Fd {
+		if c05IsOpen(ops[j]) && ops[j].Fd == o.Fd {
 			return strings.TrimSuffix(ops[j].A, ".pkglint.tmp")
 		}
 	}
@@ -1836,9 +1897,6 @@ func (st *c05State) scenario(name string, variant int, thorough bool, rng *Rng) 
 		return
 	}
 	res.Count("scenario_"+name, 1)
-	if name == "stale-tmp" {
-		return // the known finding is reproduced by the complete run alone
-	}
 	if len(res.Samples) < 8 {
 		res.Sample(map[string]any{"scenario": name, "variant": variant, "argv": strings.Join(s.Args, " "), "ops": c05OpsString(base.Ops)})
 	}
@@ -1926,9 +1984,8 @@ func runC05(ctx *Ctx) *Result {
 	get := func(k string) int { v, _ := res.Distribution[k].(int); return v }
 	others := 0
 	for _, v := range res.Violations {
-		if v.Key != "C05/preexisting-tmp-name" {
-			others++
-		}
+		_ = v
+		others++
 	}
 	if others == 0 {
 		// coverage floors of the check itself
